@@ -786,11 +786,12 @@ def check_composed(case, srv, stats):
             nd = (mid[:, None] + half[:, None] * GL_X[None, :]).ravel()
             wq = (half[:, None] * GL_W[None, :]).ravel()
             lp = np.array(values(vask(srv, family, p, n, [float(v) for v in nd], case["ptype"], case["wrap"], case["rinit"], ints), desc))
-            if not np.any(np.isnan(lp)):
+            if not np.any(np.isnan(lp)) and not np.any(np.isinf(lp) & (lp > 0)):
                 total = float(np.sum(np.exp(lp) * wq))
-                stats.note("largest |mixture mass - 1|", abs(total - 1))
+                stats.note("largest |mixture mass - 1|", abs(total - 1) if math.isfinite(total) else 0.0)
                 # singular component densities (gamma shapes below 1) and the union grid limit the quadrature
-                smooth = all(not (f.name in ("gamma", "chi-squared") and ps[j][0] < 1.0) for j, f in enumerate(F))
+                smooth = all(not (f.name in ("gamma", "chi-squared") and ps[j][0] < 1.0) and not (f.name == "gev" and ps[j][2] < -0.9)
+                             for j, f in enumerate(F))
                 if smooth and abs(total - 1) > 1e-4:
                     raise Violation("%s: the mixture density integrates to %r, not to 1" % (desc, total))
                 classes.append("mixture mass")
@@ -836,7 +837,7 @@ WITNESSES = {
     "geometric_negative": _w("C14/geometric-negative-arguments", "geometric", (0.25,), "logpdf", -2.0, lambda v: v != -INF),
     "chisquared_negative": _w("C14/chi-squared-no-support-guard", "chi-squared", (3.0,), "logpdf", -1.0, lambda v: v != -INF),
     "gamma_cdf_negative": _w("C14/gamma-cdf-negative-argument", "gamma", (3.0, 1.0), "cdf", -3.0, _far(0.0)),
-    "powerlaw_cdf": _w("C14/power-law-cdf-is-the-survival-function", "power law", (2.0, 2.0), "cdf", 4.0, _far(0.5)),
+    "powerlaw_cdf": _w("C14/power-law-cdf-is-the-survival-function", "power law", (2.0, 2.0), "cdf", 8.0, _far(0.75)),
     "gev_cdf_above": _w("C14/gev-gpareto-cdf-above-the-support", "gev", (0.0, 1.0, -0.5), "cdf", 5.0, _far(1.0)),
     "categorical_logcdf": _w("C14/categorical-logcdf-starts-from-log-1", "categorical", (0.25, 0.25, 0.5), "cdf", 1.0, _far(0.5)),
     "chisquared_k0": _accepts("C14/chi-squared-power-law-parameter-ranges", "chi-squared", (0.0,)),
